@@ -60,6 +60,8 @@ def _on_alarm(signum, frame):
 
 
 WATCHDOG_S = 1.0
+HANGS = [0]          # non-terminating calls seen in this run; after MAX_HANGS the run stops generating
+MAX_HANGS = 5        # (each costs WATCHDOG_S; the violation is already established)
 
 
 class RA: ...
@@ -126,16 +128,17 @@ class Runner:
         return "Other:" + type(e).__name__
 
     def apply(self, op):
-        old = signal.signal(signal.SIGALRM, _on_alarm)
-        signal.setitimer(signal.ITIMER_REAL, WATCHDOG_S)
+        old = signal.signal(signal.SIGVTALRM, _on_alarm)
+        signal.setitimer(signal.ITIMER_VIRTUAL, WATCHDOG_S)     # CPU time: immune to machine load
         try:
             return self._apply(op)
         except Hang:
             self.hung = True
+            HANGS[0] += 1
             return ["raised", "Other:Hang"], self.observe()
         finally:
-            signal.setitimer(signal.ITIMER_REAL, 0)
-            signal.signal(signal.SIGALRM, old)
+            signal.setitimer(signal.ITIMER_VIRTUAL, 0)
+            signal.signal(signal.SIGVTALRM, old)
 
     def _apply(self, op):
         reg, R = self.reg, self.res
@@ -222,7 +225,7 @@ def oracle_step(before, op, res, after):
     k = op[0]
     w0 = [tuple(e) for e in before["watches"]]
     if res == ["raised", "Other:Hang"]:
-        return (f"{k} does not terminate", f"{k} did not return within {WATCHDOG_S}s (cycle check spinning on a cyclic graph)")
+        return (f"{k} does not terminate", f"{k} did not return within {WATCHDOG_S}s of CPU time (cycle check spinning on a cyclic graph)")
     # -- views are exact inverses, graph acyclic: after ANY operation
     if sorted([s, r] for r, s in after["subs"]) != after["watches"]:
         return ("views not inverse", f"after {k}: the two views are not exact inverses")
@@ -580,6 +583,7 @@ def exhaustive(ctx: Ctx, nres, depth, alphabet):
 
 def run(ctx: Ctx):
     cases, terms = [], []
+    HANGS[0] = 0
     # 0. corpus
     for c in corpus_cases("C17"):
         probe_spec = tuple(c["probe"]) if c.get("probe") else None
@@ -595,11 +599,15 @@ def run(ctx: Ctx):
                  (2, 4, all_ops(2, nq=1, subsets=False)), (2, 3, all_ops(2, nq=2))]
     for nres, depth, alpha in plans:
         for ops in exhaustive(ctx, nres, depth, alpha):
+            if HANGS[0] >= MAX_HANGS:
+                break
             tr, _ = run_ops(ops)
             handle(ctx, tr, cases, terms, f"exhaustive:{nres}res:len{depth}")
     # 2. random sequences, state-aware bias
     nrand = 500 if ctx.quick() else 8000
     for i in range(nrand):
+        if HANGS[0] >= MAX_HANGS:
+            break
         length = ctx.rng.choice([5, 10, 20, 30, 40, 40])
         nres = ctx.rng.choice([2, 3, 4, 4, 4])
         tr = random_trace(ctx.rng, length, nres)
@@ -607,6 +615,9 @@ def run(ctx: Ctx):
     # 3. real waiters parked on a queue are released by deregister (oracle only)
     nprobe = 60 if ctx.quick() else 1000
     for i in range(nprobe):
+        if HANGS[0] >= MAX_HANGS:
+            ctx.notes.append(f"stopped generating after {HANGS[0]} non-terminating registry calls")
+            break
         tr = random_trace(ctx.rng, ctx.rng.choice([3, 8, 15, 25]), 3)
         ops = [op for op, _, _ in tr]
         spec = (ctx.rng.choice(["getters", "joiners"]), ctx.rng.randrange(3))
